@@ -102,8 +102,16 @@ func caseC06(c *Ctx) {
 	fo := forestOpts{maxRoots: 4, maxExtra: 6, alpha: []int{alphaPlain, alphaFS}[c.Draw(2)], distinctRoots: true, maxDepth: 4, maxFan: 3}
 	if op.FromRoot {
 		fo.maxRoots = 1
+	} else if massive && c.Chance(1, 4) {
+		// more roots than workers: one worker creates several roots
+		fo.maxRoots, fo.maxExtra = 16, 2
 	}
 	forest := genForest(c, fo)
+	if fo.maxRoots == 16 {
+		for len(forest) < 12 {
+			forest = append(forest, genTree(c, fmt.Sprintf("r%d", len(forest)), fo))
+		}
+	}
 	st := c06state{pre: map[string]string{}}
 	st.kind = []string{"empty", "missing", "preexisting", "below-file", "long-name"}[c.Pick(5, 2, 3, 1, 1)]
 	switch st.kind {
@@ -402,12 +410,16 @@ func caseC08(c *Ctx) {
 	if c.Chance(1, 5) {
 		target = filepath.Join(j, "deep", "er", "target")
 	}
-	os.MkdirAll(target, 0o755)
 	hist := []string{}
 	nontrivial := false
 
 	// ---- step 1: how the directory came to be
-	origin := []string{"mkdir", "mkdir-faulted", "subset", "nothing"}[c.Pick(4, 2, 3, 1)]
+	origin := []string{"mkdir", "mkdir-faulted", "subset", "nothing", "target-missing"}[c.Pick(4, 2, 3, 1, 1)]
+	if origin != "target-missing" {
+		os.MkdirAll(target, 0o755)
+	} else {
+		hist = append(hist, "the target directory does not exist")
+	}
 	mkOp := Op{Kind: "mkdir", Exts: exts, Massive: c.Chance(1, 3), FromRoot: op.FromRoot}
 	doc := canonicalDoc(forest)
 	justMade := false
@@ -444,6 +456,9 @@ func caseC08(c *Ctx) {
 	edits := 0
 	if !justMade || c.Chance(1, 2) {
 		edits = c.Draw(4)
+	}
+	if origin == "target-missing" {
+		edits = 0
 	}
 	for e := 0; e < edits; e++ {
 		justMade = false
